@@ -697,7 +697,13 @@ func (g *vGen) step() {
 		case 0:
 			g.emit("api %d %s invite %s %s", b, vEnc(room), somelist(users, 2), somelist(users, 3))
 		case 1:
-			g.emit("api %d %s disinvite %s %s %s", b, vEnc(room), somelist(users, 1), somelist(g.rsids, 2), somelist(users, 2))
+			// either by user or by Nextcloud session id: a session addressed both ways closes after the
+			// first copy, racing with the second
+			du, dr := somelist(users, 1), "-"
+			if r.chance(1, 2) {
+				du, dr = "-", somelist(g.rsids, 2)
+			}
+			g.emit("api %d %s disinvite %s %s %s", b, vEnc(room), du, dr, somelist(users, 2))
 		case 2:
 			g.emit("api %d %s delete", b, vEnc(room))
 			for _, s := range g.sess {
@@ -780,7 +786,7 @@ func (g *vGen) step() {
 }
 
 func vHubGen(e *vEnv, r *vRand) []vCase {
-	n := e.scale(40, 400)
+	n := e.scale(40, 250)
 	maxOps := e.scale(30, 60)
 	var cases []vCase
 	for i := 0; i < n; i++ {
